@@ -24,9 +24,9 @@ KEYWORDS = {
     'groovy': set('abstract as assert boolean break byte case catch char class const continue def default do '
                   'double else enum extends final finally float for goto if implements import in instanceof int '
                   'interface long native new null package private protected public return short static strictfp '
-                  'super switch synchronized this threadsafe throw throws trait transient try void volatile while '
+                  'super switch synchronized this threadsafe throw throws transient try void volatile while '
                   'true false'.split()),
-    'scala': set('abstract case catch class def do else enum export extends false final finally for given if '
+    'scala': set('abstract case catch class def do else enum extends false final finally for given if '
                  'implicit import lazy match new null object override package private protected return sealed '
                  'super then throw trait true try type val var while with yield'.split()),
 }
